@@ -5,7 +5,8 @@ from .client_family import TMPL
 
 def convert(beh, rng, name, opts):
     steps = []
-    for act, a in beh:
+    for item in beh:
+        act, a = item[0], item[1]
         if act == 'Init': continue
         if act == 'Accept': steps.append(dict(a='accept'))
         elif act == 'AcceptFail': steps.append(dict(a='acceptfail', kind=a[0]))
@@ -63,6 +64,13 @@ def run_check(prop, tier, seed, replay=None):
             for ci, (cfg, cc) in enumerate((('loop', False), ('loop_net', True))):
                 for bi, beh in enumerate(C.simulate(cfg, 'LoopImpl', n, 30, seed * 31 + ci)):
                     scs.append(convert(beh, rng, 'C20-%s-%d' % (cfg, bi), dict(cancelCloses=cc)))
+            cov_info = {}
+            if tier == 'thorough':     # a transition cover of the exhaustively explored graphs as well
+                from . import cover
+                for cfg, cc in (('loop', False), ('loop_net', True)):
+                    behs, ne, ns = cover.behaviours(cfg, 'LoopImpl', rng=rng)
+                    scs += [convert(b, rng, 'C20-cover-%s-%d' % (cfg, i), dict(cancelCloses=cc)) for i, b in enumerate(behs)]
+                    cov_info['cover_' + cfg] = dict(edges=ne, states=ns, paths=len(behs))
             for k in range(2 if tier == 'quick' else 6):
                 for d in directed(rng):
                     d = dict(d); d['name'] += '-s%d' % k; d['seed'] = rng.randrange(1 << 30); scs.append(d)
@@ -71,17 +79,7 @@ def run_check(prop, tier, seed, replay=None):
             raise C.ToolError('; '.join(info['tool_trouble']))
         accepted, rej = C.validate_traces(traces, 'LoopContract', {prop}, TMPL, work)
         byname = {s['name']: s for s in scs}
-        violations = []
-        for r in rej[:4]:
-            name = r['trace'][0]['scn']; sc = byname[name]
-            w2 = os.path.join(work, 're_' + re.sub(r'\W', '_', name)); os.makedirs(w2, exist_ok=True)
-            tr2, _ = C.run_scenarios(binp, [sc], w2, nworkers=1)
-            _, rej2 = C.validate_traces(tr2, 'LoopContract', {prop}, TMPL, w2)
-            if rej2:
-                path = C.save_replay(prop, name, dict(property=prop, scenario=sc, rejected_at=rej2[0]['at'], event=rej2[0]['event'], trace=rej2[0]['trace']))
-                violations.append((name, path, rej2[0]))
-            else:
-                raise C.ToolError('rejection of %s did not reproduce' % name)
+        violations, anomalies = C.confirm_rejections(prop, rej, lambda n: byname[n], lambda sc, w: C.run_scenarios(binp, [sc], w, nworkers=1)[0], 'LoopContract', TMPL, work)
         sig = lambda t: ' '.join(e['ev'] for e in t if e['ev'] not in ('SB', 'SE', 'RB', 'RE', 'CB', 'CE', 'Quiescent', 'Send', 'Recv'))
         cov = dict(states=sum(d['states'] for d in design) or 1, transitions=sum(d['transitions'] for d in design) or 1, design_runs=design,
                    traces_validated_against_impl=accepted + len(rej), scenarios=len(scs), evaluations=len(traces), distinct_nontrivial=len({sig(t) for t in traces}),
@@ -89,6 +87,7 @@ def run_check(prop, tier, seed, replay=None):
                         'with harness accepter/services/connections + directed histories; distinct = distinct sequences of observable event kinds',
                    steering_divergences=sum(t[0].get('st_diverged', 0) for t in traces), crashes=len(info['crashes']),
                    samples=[dict(scenario=scs[0]['name'], steps=scs[0]['steps'][:14], events=[e['ev'] for e in traces[0] if e['ev'] not in ('SB','SE','RB','RE','CB','CE')][:40])], exhaustive=False)
+        if replay is None: cov.update(cov_info)
         C.write_evidence(prop, tier, seed, 'model_checking', cov, time.time() - t0, len(violations),
                          assumptions=['handlers return when released; clients eventually close', 'trusted: harness accepter/service objects, recorder, TLC'])
         for name, path, r in violations:
